@@ -183,3 +183,27 @@ fn c05_mixed_programs_report_only_accessed_slots() {
     }
     run_cases("c05_mixed", cases);
 }
+
+/// the key of an SSTORE is pushed BEFORE the operands of some other opcode: `PUSH1 0x2a PUSH1 5 <operands> <op> <POP its result> SSTORE`.
+/// Whatever the opcode, the only storage access is sstore(5, 0x2a): the layout may name slot 5 only (for every opcode of the
+/// arity table of c07_diff, so an opcode that pops or pushes the wrong number of words shows up as a phantom slot).
+#[test]
+fn c05_slot_key_survives_every_opcode() {
+    let mut cases = vec![];
+    for (op, pops, pushes) in crate::c07_diff::evm_arity() {
+        if (0x80..=0x9f).contains(&op) { continue; }
+        let mut c = vec![];
+        p1(&mut c, 0x2a);
+        p1(&mut c, 5);
+        for i in 0..pops { p1(&mut c, 0x41 + i as u8); }
+        c.push(op);
+        if (0x60..=0x7f).contains(&op) { c.extend(std::iter::repeat(0x41).take((op - 0x5f) as usize)); }
+        for _ in 0..pushes { c.push(0x50); }
+        c.extend([0x55, 0x00]);
+        // SLOAD / SSTORE as the opcode in between name their own key (the topmost operand)
+        let mut allowed = BTreeSet::from([U256::from(5u8)]);
+        if op == 0x54 || op == 0x55 { allowed.insert(U256::from(0x40u8 + pops as u8)); }
+        cases.push(Case { ob: "slots.only_accessed_slots", what: format!("sstore(5, 0x2a) with opcode {op:#04x} (pops {pops}, pushes {pushes}) between the key and the store"), code: c, allowed, in_value: BTreeSet::new() });
+    }
+    run_cases("c05_key_survives_opcode", cases);
+}
